@@ -51,6 +51,7 @@ type c07In struct {
 	Reverse bool      `json:"reverse,omitempty"`
 	Ps      []float64 `json:"ps,omitempty"`
 	Samples []string  `json:"samples,omitempty"` // num: the sample strings
+	Family  string    `json:"family,omitempty"`  // num: generator family (tag only)
 }
 
 func unhexs(xs []string) []string {
@@ -536,6 +537,9 @@ func c07Case(in c07In) Case {
 			if nerr > 0 {
 				tags = append(tags, "parse-error")
 			}
+			if in.Family != "" {
+				tags = append(tags, "ill-conditioned:"+in.Family)
+			}
 			if in.Keep {
 				tags = append(tags, "keep-values")
 			}
@@ -850,6 +854,27 @@ func c07GenNum(r *Rng, withOne bool) c07In {
 		n = r.Intn(4)
 	}
 	style := r.Intn(5)
+	if r.Chance(1, 2) {
+		style = 5 + r.Intn(5) // magnitude dwarfs the spread (ill-conditioned variance)
+	}
+	offset := Pick(r, []int64{1000000, 1000000000, 4000000000, 1000000000000, 1700000000000, 1000000000000000})
+	neg := r.Chance(1, 4)
+	big := func(k int64, frac int) string {
+		s := strconv.FormatInt(offset+k, 10)
+		if frac >= 0 {
+			s += fmt.Sprintf(".%03d", frac)
+		}
+		if neg {
+			s = "-" + s
+		}
+		return s
+	}
+	hugeAt := -1
+	if n > 0 {
+		hugeAt = r.Intn(n)
+	}
+	tsSpan := Pick(r, []int{4, 1000, 86400000})
+	outlier := r.Chance(1, 3)
 	for i := 0; i < n; i++ {
 		var s string
 		switch x := r.Intn(20); {
@@ -865,11 +890,33 @@ func c07GenNum(r *Rng, withOne bool) c07In {
 				s = fmt.Sprintf("%d.%02d", r.Range(-50, 500), r.Intn(100))
 			case 3: // large magnitudes with small spread
 				s = strconv.Itoa(1000000 + r.Intn(4))
+			case 5: // offset 1e6 .. 1e15 plus small integers
+				s = big(int64(r.Intn(6)), -1)
+			case 6: // offset plus small dyadic fractions
+				s = big(int64(r.Intn(3)), 125*r.Intn(8))
+			case 7: // epoch-millisecond style timestamps
+				offset = 1700000000000
+				s = big(int64(r.Intn(tsSpan)), -1)
+			case 8: // one huge value among many small ones
+				if i == hugeAt {
+					s = big(0, -1)
+				} else {
+					s = strconv.Itoa(r.Range(-3, 6))
+				}
+			case 9: // a constant sequence at a huge value (variance exactly 0), sometimes with one outlier
+				if i == hugeAt && outlier {
+					s = big(1, -1)
+				} else {
+					s = big(0, 500)
+				}
 			default:
 				s = Pick(r, []string{"0", "1", "1.0", "1e0", "100", "-100", "0.5", "2.5e2", "1e6", "-0.25", "3", "3", "7"})
 			}
 		}
 		in.Samples = append(in.Samples, s)
+	}
+	if style >= 5 {
+		in.Family = []string{"offset+int", "offset+frac", "timestamps", "one-huge", "constant-huge"}[style-5]
 	}
 	cands := []float64{0, 0.5, 0.25, 0.75, 0.9, 0.99, 0.95, 0.1, 0.999, 1.0 / 64, 63.0 / 64, 0.3, 0.7, 1 - 1.0/1024}
 	for i := 0; i < 4; i++ {
@@ -994,7 +1041,7 @@ func main() {
 			"then seeded random cases of 7 kinds: counter / sub-key counter / table histories (length 0..60; keys and sub-keys from alphabets of size 1..4 in four styles incl. shared prefixes and bytes >= 0x80, empty, long random strings; " +
 			"increments absent / small / negative / 0 / +5 / ' 5' / non-numeric / empty / +-2^62 / int64 bounds and just beyond; extra fields; table delimiter NUL or another single byte), every public accessor read after every prefix; " +
 			"trim (table history, Trim by column set / row set / value threshold / column-and-value, then 0..12 further samples that re-create trimmed cells, optionally a second Trim; every accessor before the first Trim and after every later call, Value/ColTotal probed at every column of the whole history, checked against the table determined by the cells alone), " +
-			"accumulating group (0..2 group expressions, 1..3 data expressions from {.}, {n}, {name}, literals, concatenation, sumi; histories of NUL-joined fields), numerical (integers with ties, dyadic fractions, decimals, large offset; " +
+			"accumulating group (0..2 group expressions, 1..3 data expressions from {.}, {n}, {name}, literals, concatenation, sumi; histories of NUL-joined fields), numerical (integers with ties, dyadic fractions, decimals; half of the cases with a magnitude that dwarfs the spread: offsets 1e6/1e9/4e9/1e12/1.7e12/1e15 (also negative) plus small integers or fractions, epoch-millisecond timestamps, one huge value among small ones, constant sequences at a huge value; Variance/StdDev^2 compared with the exact rational sample variance within the relative bound 1e-9 + 8*n*2^-53*kappa that Welford's update meets; " +
 			"parse errors; keep-values on/off; reverse; quantiles p whose index computation is exact in float64, some p<0 and p>=1), and permutation pairs (a history and a shuffle of it). " +
 			"distinct = distinct input; non-trivial = counter: a repeated key with an explicit increment or parse error; sub-key: a new sub-key sorting before existing ones while rows exist (re-index); table/trim: >=2 rows and >=2 columns with absent cells or negative values; accum: >=2 columns and >=3 samples; num: >=3 parsed samples; perm: >=3 samples.",
 		Gen: c07Gen,
